@@ -12,6 +12,8 @@
 #include <validationinterface.h>
 #include <logging.h>
 #include <kernel/types.h>
+#include <kernel/mempool_entry.h>
+#include <kernel/mempool_removal_reason.h>
 #include <thread>
 
 namespace b {
@@ -112,7 +114,20 @@ static std::string Body(const Config& c)
 namespace a {
 struct Rec : public CValidationInterface {
     std::vector<uint256> chain; // replayed from callbacks
+    std::set<uint256> pool;     // mempool content replayed from callbacks (txids)
     std::string err;
+    void TransactionAddedToMempool(const NewMempoolTransactionInfo& tx, uint64_t) override
+    {
+        if (!pool.insert(tx.info.m_tx->GetHash().ToUint256()).second) err += "TransactionAddedToMempool twice for " + tx.info.m_tx->GetHash().ToString().substr(0, 10) + "; ";
+    }
+    void TransactionRemovedFromMempool(const CTransactionRef& tx, MemPoolRemovalReason, uint64_t) override
+    {
+        if (!pool.erase(tx->GetHash().ToUint256())) err += "TransactionRemovedFromMempool for " + tx->GetHash().ToString().substr(0, 10) + " which was never announced as added; ";
+    }
+    void MempoolTransactionsRemovedForBlock(const std::shared_ptr<const CBlock>&, const std::vector<RemovedMempoolTransactionInfo>& txs, unsigned int) override
+    {
+        for (auto& t : txs) if (!pool.erase(t.info.m_tx->GetHash().ToUint256())) err += "MempoolTransactionsRemovedForBlock lists " + t.info.m_tx->GetHash().ToString().substr(0, 10) + " which was never announced as added; ";
+    }
     void BlockConnected(const kernel::ChainstateRole&, const std::shared_ptr<const CBlock>& block, const CBlockIndex* pindex) override
     {
         if (block->GetHash() != pindex->GetBlockHash()) err += "BlockConnected: block does not match index; ";
@@ -144,8 +159,9 @@ int main(int argc, char** argv)
     if (vx::ctx().replay.empty() || replay_is_history) {
         int rc = cs::Explore("C63", {}, [](cs::Sim& s) {
             cs::Plan p;
-            s.kinds = {"empty", "spend1", "cb_plus1_empty"};
-            s.parents = {"t0", "t1", "t2"};
+            s.kinds = {"empty", "spend1", "merge2", "cb_plus1_empty"};
+            s.parents = {"t0", "t1"};
+            s.tx_kinds = {"spend1", "merge2"}; // the same transactions also enter through the mempool
             s.ev_flush = false; s.ev_invalidate = true; s.ev_reconsider = true;
             p.depth = vx::thorough() ? 4 : 3;
             s.max_new_blocks = p.depth;
@@ -155,9 +171,19 @@ int main(int argc, char** argv)
             s.n.m_node.validation_signals->RegisterValidationInterface(rec);
             s.extra_check = [&s](const std::string& e) {
                 if (!rec->err.empty()) { s.fs.report("C63-notification-inconsistent", "after '" + e + "': " + rec->err); rec->err.clear(); }
+                {
+                    std::set<uint256> real;
+                    for (auto& info : s.n.pool().infoAll()) real.insert(info.tx->GetHash().ToUint256());
+                    if (real != rec->pool) {
+                        std::string d;
+                        for (auto& t : real) if (!rec->pool.count(t)) d += " in-pool-but-never-announced:" + t.ToString().substr(0, 10);
+                        for (auto& t : rec->pool) if (!real.count(t)) d += " announced-but-not-in-pool:" + t.ToString().substr(0, 10);
+                        s.fs.report("C63-mempool-notifications-differ", "after '" + e + "': the mempool replayed from TransactionAddedToMempool / RemovedFromMempool / RemovedForBlock differs from the real mempool:" + d);
+                    }
+                }
                 if (!rec->chain.empty() && rec->chain.back() != s.n.tip()->GetBlockHash()) s.fs.report("C63-replayed-tip-differs", "after '" + e + "': replaying BlockConnected/BlockDisconnected gives tip " + rec->chain.back().ToString().substr(0, 12) + " but the node's tip is " + s.n.tip()->GetBlockHash().ToString().substr(0, 12));
             };
-            p.what = "part (a) oracle: replaying BlockConnected/BlockDisconnected notifications (registered before the base chain is built) reproduces the node's tip after every event";
+            p.what = "part (a) oracle: replaying BlockConnected/BlockDisconnected notifications (registered before the base chain is built) reproduces the node's tip after every event, and the mempool replayed from TransactionAddedToMempool / TransactionRemovedFromMempool / MempoolTransactionsRemovedForBlock equals the real mempool (transactions enter through ProcessTransaction, leave in blocks, and return on reorgs)";
             return p;
         });
         if (rc >= 0) return rc;
